@@ -52,7 +52,7 @@ type c04Case struct {
 var c04TreeCfg = h.TreeCfg{
 	MaxEntries: 10, MaxDepth: 3, Names: []string{"a", "b", "ab", "a-b", "c", "d"},
 	Kinds:     []h.Kind{h.KFile, h.KFile, h.KFile, h.KFile, h.KSymlink, h.KFifo},
-	Hardlinks: true, BigFiles: true,
+	Hardlinks: true, BigFiles: true, BadUTF8: true,
 }
 
 func genC04(t *rapid.T) *c04Case {
@@ -79,6 +79,13 @@ func genC04(t *rapid.T) *c04Case {
 		h.AlignIdentical(c04Tree(c), c.Dst, false, 0, 0)
 	}
 	c.DiskSrc = rapid.IntRange(0, 3).Draw(t, "disksrc") == 0
+	if c.DiskSrc && rapid.Bool().Draw(t, "latin1name") {
+		// a file whose name is not valid UTF-8 (any byte string is a legal name on disk)
+		if _, taken := c.Tree.Index()["caf\xe9.txt"]; !taken {
+			c.Tree.Nodes = append(c.Tree.Nodes, h.Node{Path: "caf\xe9.txt", Kind: h.KFile, Perm: 0o644, Mtime: 11, Seed: 611, Size: 40})
+			c.Tree.Normalize()
+		}
+	}
 	if c.Many > 0 && rapid.Bool().Draw(t, "slowsend") {
 		c.SlowSendUS = rapid.SampledFrom([]int{6, 12}).Draw(t, "slowsendus")
 	}
